@@ -132,7 +132,10 @@ def generate(seed, tier="quick"):
                       {"op": "set_ncomp", "branch": b_, "n": o.randint(1, 5)},
                       {"op": "set", "view": [["branch", {"t": "int", "v": b_}]], "key": key, "val": {"seed": o.randrange(1 << 30)}}]
         else:
-            calls.append({"op": "set_ncomp", "branch": o.randrange(64), "n": o.randint(1, 5)})
+            c_ = {"op": "set_ncomp", "branch": o.randrange(64), "n": o.randint(1, 5)}
+            if o.random() < 0.25:
+                c_["min_radius"] = o.choice([0.3, 0.6, 1.0, 1.5])  # caps the SWC radius profile of *this* call only
+            calls.append(c_)
     return {"prop": PROPERTY, "shape": shape, "prep": prep, "calls": calls, "steps": o.randint(3, 10), "dt": o.choice(DTS),
             "solver": o.choice(["bwd_euler", "bwd_euler", "crank_nicolson"]), "stim_seed": o.randrange(1 << 30)}
 
@@ -219,7 +222,7 @@ def execute(program):
                     w.bump("probe_group_after_set_ncomp")
                 if is_swc and not w.violations:
                     # SWC radius profile and lengths of the branch equal those of a direct read with n compartments
-                    direct = shape_of_swc(program["shape"]["swc_text"], c["n"])
+                    direct = shape_of_swc(program["shape"]["swc_text"], c["n"], c.get("min_radius"))
                     got = w.m.nodes[w.m.nodes["global_branch_index"] == b]
                     exp = direct.nodes[direct.nodes["global_branch_index"] == b]
                     w.bump("oracle_swc_direct")
